@@ -129,6 +129,11 @@ def gen_recipe(rng: Rng, tier: str, idx: int) -> dict:
         uninit.append({"name": name, "pos": rng.below(n + 1), "where": where})
     fname = rng.choice(["model.onnx", "m.onnx", "model.v2.onnx", "net", "a.b.c.onnx", "model.textproto", "weights.data",
                         "mod\u00e8le v1.onnx"])
+    extras = {"metadata": rng.chance(0.3), "function": rng.chance(0.2), "big_const_attr": rng.chance(0.25),
+              "value_info": rng.chance(0.3)}
+    for e in inits:
+        if rng.chance(0.1) and e["kind"] in ("np", "torch", "packed"):
+            e["tensor_name"] = e["name"] + "__tensor"   # the tensor's own name differs from its initializer's name
     cfg = {
         "path_type": rng.choice(["str", "pathlib"]),
         "path_form": rng.weighted([("abs", 8), ("rel", 4), ("nested", 4), ("missingdir", 1)]),
@@ -137,7 +142,7 @@ def gen_recipe(rng: Rng, tier: str, idx: int) -> dict:
         "backend": rng.weighted([("fd", 3), ("nofileno", 2)]),
         "preexisting": rng.weighted([("none", 4), ("both", 2), ("data_only", 1), ("model_only", 1)]),
     }
-    return {"idx": idx, "inits": inits, "uninit": uninit, "cfg": cfg}
+    return {"idx": idx, "inits": inits, "uninit": uninit, "cfg": cfg, "extras": extras}
 
 
 # ------------------------------------------------------------------ realisation
@@ -183,7 +188,7 @@ def make_tensor(e: dict, sandbox: str):
     dtype, shape, kind = e["dtype"], e["shape"], e["kind"]
     raw = _raw_bytes(dtype, shape, e["fill"])
     dt = ir.DataType[dtype]
-    name = e["name"]
+    name = e.get("tensor_name", e["name"])
     if kind == "np":
         t = ir.Tensor(_np_array(dtype, shape, raw), dtype=dt, name=name)
     elif kind == "bytesonly":
@@ -330,7 +335,43 @@ def build(recipe: dict, sandbox: str):
         main_outs.append(n.outputs[0])
     inputs = [x, cond] + [v for v, e in graphs["main"] if e.get("as_input")]
     main_outs = main_outs + [v for v, e in graphs["main"] if e.get("as_output") and not e.get("as_input")]
+    extras = recipe.get("extras") or {}
+    if extras.get("big_const_attr"):
+        # a Constant node whose tensor attribute is bigger than the externalisation threshold: attributes are not
+        # initializers, must stay inline and untouched
+        big = ir.node("Constant", inputs=[], attributes={"value": ir.tensor(np.arange(600, dtype=np.float32), name="big_attr")},
+                      name="big_const")
+        big.outputs[0].name = "big_const_out"
+        big.outputs[0].type = ir.TensorType(F)
+        big.outputs[0].shape = ir.Shape([600])
+        main_nodes.append(big)
+        main_outs = main_outs + [big.outputs[0]]
     g = ir.Graph(inputs, main_outs, nodes=main_nodes, initializers=[v for v, _ in graphs["main"]],
                  opset_imports={"": 21}, name="main_graph")
-    model = ir.Model(g, ir_version=10, producer_name="dsim-c20")
+    model = ir.Model(g, ir_version=10, producer_name="dsim-c20", producer_version="1.2", domain="dsim.test", model_version=3)
+    if extras.get("metadata"):
+        model.metadata_props["author"] = "dsim"
+        model.doc_string = "model doc"
+        g.doc_string = "graph doc"
+        g.metadata_props["stage"] = "exported"
+        if main_nodes:
+            main_nodes[0].metadata_props["namespace"] = "top/layer0"
+            main_nodes[0].doc_string = "node doc"
+    if extras.get("value_info"):
+        for v, e in graphs["main"][:2]:
+            v.metadata_props["note"] = "initializer value"
+    if extras.get("function"):
+        fx = ir.Value(name="fx", shape=ir.Shape([2]), type=ir.TensorType(F))
+        fn_node = ir.node("Neg", inputs=[fx], name="fn_neg")
+        fn_node.outputs[0].name = "fy"
+        fgraph = ir.Graph([fx], [fn_node.outputs[0]], nodes=[fn_node], opset_imports={"": 21}, name="local_fn_graph")
+        func = ir.Function("dsim.local", "LocalNeg", "", graph=fgraph, attributes=[])
+        model.functions[func.identifier()] = func
+        model.graph.opset_imports["dsim.local"] = 1
+        call = ir.node("LocalNeg", inputs=[x], domain="dsim.local", name="call_local")
+        call.outputs[0].name = "local_out"
+        call.outputs[0].type = ir.TensorType(F)
+        call.outputs[0].shape = ir.Shape([2])
+        model.graph.append(call)
+        model.graph.outputs.append(call.outputs[0])
     return model, expected
